@@ -308,6 +308,9 @@ impl<T> Pool<T> {
         }
         let _ = self.inner.available.fetch_add(1, Ordering::Relaxed);
         self.inner.semaphore.add_permits(1);
+        // The pool might have been closed after the size permit was
+        // obtained. Closed pools must not contain any objects.
+        self.inner.clean_up();
     }
 
     /// Removes an [`Object`] from this [`Pool`].
